@@ -499,6 +499,8 @@ type BlockedInfo struct {
 	Op     string
 	Funcs  []string // ipchub / dependency functions on its stack, innermost first
 	Frames string
+	// Timed: the blocked operation has a deadline on the virtual clock (it will end by itself)
+	Timed bool
 }
 
 // Blocked lists all unfinished threads other than the caller.
@@ -512,7 +514,7 @@ func Blocked() []BlockedInfo {
 		if t.done || t == x.cur {
 			continue
 		}
-		bi := BlockedInfo{ID: t.ID, Name: t.Name, Op: t.OpKind}
+		bi := BlockedInfo{ID: t.ID, Name: t.Name, Op: t.OpKind, Timed: t.deadline > 0 || t.sleeping}
 		if !t.started {
 			bi.Op = "not-started"
 		}
